@@ -275,6 +275,9 @@ class Check:
             k = [x for x in self.known if x["id"] == kid][0]
             print("KNOWN-FINDING: property=%s %s: %s (matched %d times this run)" % (
                 self.prop, kid, k.get("what", ""), n), flush=True)
+        for k in self.known:
+            if k["id"] not in self.known_hits:
+                log("NOTE: property=%s known finding %s did not reproduce in this run (probe missing or defect repaired?)" % (self.prop, k["id"]))
         if self.violations:
             seen = set()
             n = 0
